@@ -81,30 +81,41 @@ structure UpdOut where
 def Primary.lifetimeExceeded (p : Primary) (now : Nat) : Bool :=
   if p.ts == 0 then false else decide (p.ts + p.lifetime ≤ now)
 
+def isHop (c : Canon) : Bool := c.btype == HOP_COUNT_BLOCK && c.extOk
+def isPrev (c : Canon) : Bool := c.btype == PREVIOUS_NODE_BLOCK && c.extOk
+def isAge (c : Canon) : Bool := c.btype == BUNDLE_AGE_BLOCK && c.extOk
+
+def bumpHop (c : Canon) : Canon :=
+  match c.data with | .hop l n => { c with data := .hop l (min (n + 1) 255) } | _ => c
+def setPrev (node : Eid) (c : Canon) : Canon :=
+  match c.data with | .prev _ => { c with data := .prev node } | _ => c
+def addAge (rt : Nat) (c : Canon) : Canon :=
+  match c.data with | .age a => { c with data := .age (min (a + rt) (U64 - 1)) } | _ => c
+
+/-- hop count: counted with saturation, "exceeded" decided on the unsaturated value -/
+def hopStep (cs : List Canon) : Bool × List Canon :=
+  ((match cs.find? isHop with
+    | some c => (match c.data with | .hop l n => decide (n + 1 > l) | _ => false)
+    | none => false),
+   updFirst isHop bumpHop cs)
+
+def prevStep (node : Eid) (cs : List Canon) : List Canon := updFirst isPrev (setPrev node) cs
+
+/-- bundle age: `saturating_add`, stored saturated, compared with the lifetime in ms -/
+def ageStep (rt life : Nat) (cs : List Canon) : Bool × List Canon :=
+  ((match cs.find? isAge with
+    | some c => (match c.data with | .age a => decide (a + rt > life) | _ => false)
+    | none => false),
+   updFirst isAge (addAge rt) cs)
+
 /-- `Bundle::update_extensions(local_node, residence_time)` (fix F3), `now` = `dtn_time_now()` -/
 def Bundle.updateExtensions (b : Bundle) (node : Eid) (rt : Nat) (now : Nat) : UpdOut :=
-  -- hop count: counted with saturation, "exceeded" decided on the unsaturated value
-  let isHop := fun (c : Canon) => c.btype == HOP_COUNT_BLOCK && c.extOk
-  let hopEx : Bool := match b.canon.find? isHop with
-    | some c => (match c.data with | .hop l n => decide (n + 1 > l) | _ => false)
-    | none => false
-  let c1 := updFirst isHop
-      (fun c => match c.data with | .hop l n => { c with data := .hop l (min (n + 1) 255) } | _ => c) b.canon
-  let b1 : Bundle := { b with canon := c1 }
-  if hopEx then { ret := false, bundle := b1 } else
-  let isPrev := fun (c : Canon) => c.btype == PREVIOUS_NODE_BLOCK && c.extOk
-  let c2 := updFirst isPrev
-      (fun c => match c.data with | .prev _ => { c with data := .prev node } | _ => c) c1
-  let b2 : Bundle := { b with canon := c2 }
-  let isAge := fun (c : Canon) => c.btype == BUNDLE_AGE_BLOCK && c.extOk
-  let ageEx : Bool := match c2.find? isAge with
-    | some c => (match c.data with | .age a => decide (a + rt > b.primary.lifetime) | _ => false)
-    | none => false
-  let c3 := updFirst isAge
-      (fun c => match c.data with | .age a => { c with data := .age (min (a + rt) (U64 - 1)) } | _ => c) c2
-  let b3 : Bundle := { b with canon := c3 }
-  if ageEx then { ret := false, bundle := b3 } else
-  { ret := !(b.primary.lifetimeExceeded now), bundle := b3 }
+  let h := hopStep b.canon
+  if h.1 then { ret := false, bundle := { b with canon := h.2 } } else
+  let c2 := prevStep node h.2
+  let a := ageStep rt b.primary.lifetime c2
+  if a.1 then { ret := false, bundle := { b with canon := a.2 } } else
+  { ret := !(b.primary.lifetimeExceeded now), bundle := { b with canon := a.2 } }
 
 /-- `Bundle::previous_node` -/
 def Bundle.previousNode (b : Bundle) : Option Eid :=
